@@ -265,6 +265,25 @@ def run_rebuild(case):
                 write_file(dest_path(ti, f), b)
                 pre[(ti, fi)] = b
         os.makedirs(os.path.join(sbx, "abs"), exist_ok=True)
+        # symbolic links that already exist INSIDE the destination and lead out of it: at the position of a file
+        # (dangling, or to a smaller file), of a directory on the way, or of the torrent's top directory
+        for dl in case.get("dest_links", []):
+            f = trees[0]["files"][dl["file"]]
+            comps = [names[0]] + ([] if trees[0].get("single") else list(f.get("meta_path") or f["path"]))
+            out_dir = os.path.join(sbx, "abs", "outside-%d" % dl["file"])
+            os.makedirs(out_dir, exist_ok=True)
+            if dl["kind"] in ("dangling", "small"):
+                os.makedirs(os.path.join(dest, *comps[:-1]), exist_ok=True)
+                tgt = os.path.join(out_dir, "victim.cfg")
+                if dl["kind"] == "small":
+                    write_file(tgt, b"keep me: 11")
+                if not os.path.lexists(os.path.join(dest, *comps)):
+                    os.symlink(tgt, os.path.join(dest, *comps))
+            else:
+                depth = 1 if dl["kind"] == "top" else min(2, len(comps) - 1)
+                if depth >= 1 and not os.path.lexists(os.path.join(dest, *comps[:depth])):
+                    os.makedirs(os.path.join(dest, *comps[:depth - 1]), exist_ok=True)
+                    os.symlink(out_dir, os.path.join(dest, *comps[:depth]))
         if case.get("file_arg"):          # one search argument is the path of a candidate FILE
             for dp, dns, fns in os.walk(sdirs[0]):
                 dns.sort()
